@@ -34,7 +34,7 @@ def judge(chk, trace, mm):
             sub = f":mode{d['mode']}"
         elif m[2] == "freq":
             sub = f":{d['rate']}"
-        chk.classify(m[2] + sub, f"{m[2]}: {str(d)[:300]}", [line_of(trace, m[1])], extra=m)
+        chk.classify(m[2] + sub, f"{m[2]}: {str(d)[:300]}", lambda m=m, trace=trace: [line_of(trace, m[1])], extra=m)
 
 
 def run(tier, seed):
